@@ -520,7 +520,10 @@ OInvoked(e) ==
                                      !.peerS = IF "peer" \in DOMAIN e THEN e.peer ELSE "",
                                      !.ivalS = IF "ival" \in DOMAIN e THEN e.ival ELSE "" ])
   /\ QOff
-  /\ UNCHANGED <<cfg, ws, tun, bad, now, meta>>
+  \* the harness tags every request's metadata; a handler invoked by the real client whose request
+  \* metadata carries no tag (numbered 1000+ by the harness) did not receive the caller's metadata
+  /\ bad' = bad \cup Flag(RealCli /\ RealSrv /\ e.rpc >= 1000, "invoked.request-metadata-lost", 0)
+  /\ UNCHANGED <<cfg, ws, tun, now, meta>>
 
 ---------------------------------------------------------------------------
 (* Driver actions and tunnel-level observations.                           *)
@@ -831,7 +834,8 @@ C02_HeadersByFirstMsg ==
 \* every metadata value the scenarios use is legal gRPC metadata (binary values
 \* under "-bin" keys included): none may be refused as unencodable
 C02_EncodableMetadata == ~tun.marshalFail
-C02_RequestMD == \A r \in ORpcs : (rp[r].inv > 0 /\ rp[r].cstart /\ RealCli) => MDEq(rp[r].invMD, rp[r].mdSent)
+C02_RequestMD == /\ \A r \in ORpcs : (rp[r].inv > 0 /\ rp[r].cstart /\ RealCli) => MDEq(rp[r].invMD, rp[r].mdSent)
+                 /\ ~BadHas("invoked.request-metadata-lost")
 
 \* ---- C07 -------------------------------------------------------------------
 \* a terminal result is the handler's (via the close frame) or one that a local
